@@ -18,7 +18,7 @@ func (c14) Size(tier string) Size {
 	if tier == "thorough" {
 		return Size{Batches: 16, Cases: 40000}
 	}
-	return Size{Batches: 4, Cases: 4000}
+	return Size{Batches: 16, Cases: 4000}
 }
 func (c14) Rule() string {
 	return "case = history of 1-60 calls of AddType/RemoveType/AddAttr/RemoveAttr/AddRel/RemoveRel/AddTwoWayRel over 4 type names and 4 field names plus empty and unknown names, valid and invalid attribute kinds (0,15,99,-1 with and without nullable), removal of first/middle/last type, two-way relationships in both directions and within one type; after EVERY call a snapshot of Types + HasType/GetType for every pool name is compared with a reference model (ordered list of name -> attrs, rels) stepped with the same call. Names that differ by surrounding white space or letter case ('a ', ' a', 'A') are different names. Non-trivial = history with >= 1 successful and >= 1 failing call and >= 2 types alive at some point; distinct = hash of the call list."
